@@ -281,12 +281,15 @@ func specLE32(b []byte, o int) uint32 {
 //@   safety C03
 
 //@ func packet.unmarshal
+//@   loop 1 invariant#offset offset >= 12
+//@   loop 1 decreases len(raw) - offset
 //@   at call chunkType.String assert#every-emitted-chunk-type-is-decodable{C12,C19} ctype != ctPayloadData && ctype != ctInit && ctype != ctInitAck && ctype != ctSack &&
 //@      ctype != ctHeartbeat && ctype != ctHeartbeatAck && ctype != ctAbort && ctype != ctShutdown && ctype != ctShutdownAck && ctype != ctError &&
 //@      ctype != ctCookieEcho && ctype != ctCookieAck && ctype != ctShutdownComplete && ctype != ctReconfig && ctype != ctForwardTSN && ctype != ctIData && ctype != ctIForwardTSN
 //@   ensures#verify result == nil ==> len(raw) >= 12 && (old(specLE32(raw, 8) == generatePacketChecksum(raw)) ||
 //@      (old(specLE32(raw, 8)) == 0 && !doChecksum && !(len(raw) >= 16 && (old(raw[12]) == 1 || old(raw[12]) == 10))))
 //@   tags C13
+//@   safety C03
 
 //@ func packet.marshal
 //@   assume#chunks-non-nil forall i int :: 0 <= i && i < len(p.chunks) ==> p.chunks[i] != nil
